@@ -6,6 +6,8 @@
 package sod
 
 import (
+	"os"
+	"path/filepath"
 	"reflect"
 	"strings"
 )
@@ -32,10 +34,27 @@ func VerifTransformAt(c Constraints, fieldPath string, v reflect.Value) {
 	c.recursiveTransform(strings.Split(fieldPath, "."), v)
 }
 
-// VerifUuidExt exposes uuidExt and the uuid test of uuidsFromDir on a directory entry name
+// VerifUuidExt exposes uuidExt, and whether uuidsFromDir lists a directory entry of that name: the entry is
+// really created in a scratch directory and listed by uuidsFromDir itself (a name that cannot be a directory
+// entry -- empty, ".", "..", holding a slash -- is not listed)
 func VerifUuidExt(name string) (uuid, ext string, listed bool) {
 	uuid, ext = uuidExt(name)
-	return uuid, ext, uuidRegexp.MatchString(uuid)
+	if name == "" || name == "." || name == ".." || strings.ContainsAny(name, "/\x00") {
+		return uuid, ext, false
+	}
+	dir, err := os.MkdirTemp("", "vux")
+	if err != nil {
+		panic(err)
+	}
+	defer os.RemoveAll(dir)
+	if err := os.WriteFile(filepath.Join(dir, name), []byte("{}"), 0600); err != nil {
+		panic(err)
+	}
+	m, err := uuidsFromDir(dir)
+	if err != nil {
+		panic(err)
+	}
+	return uuid, ext, len(m) > 0
 }
 
 // VerifValueFieldByName exposes the walk a search makes along a field path (object_index.go)
